@@ -204,6 +204,7 @@ Ltac sim_auto := repeat (eqv_rw; eqv_rw_extra; break_match); sim_leaf.
         listed in the hint database [kv_access] ---- *)
 Create HintDb kv_access.
 #[export] Hint Unfold get_list put_list : kv_access.
+#[export] Hint Unfold follow_hint : kv_access.
 #[export] Hint Unfold get_hash hash_or_empty put_hash hfloat_store hfloat_follow : kv_access.
 #[export] Hint Unfold get_zset put_zset : kv_access.
 #[export] Hint Unfold get_set put_set store_set : kv_access.
@@ -596,7 +597,8 @@ Proof.
                     | apply sim_strlen | apply sim_incr | apply sim_decr | apply sim_incrby
                     | apply sim_decrby | apply sim_append | apply sim_del | apply sim_exists
                     | apply sim_expire | apply sim_persist | apply sim_ttl | apply sim_type
-                    | apply sim_rename | apply sim_ping ]; exact H ]
+                    | apply sim_rename | apply sim_ping
+                    | match goal with |- sim ?x _ => unfold_exec x end; sim_auto ]; try exact H ]
     | clear E ]
   end.
   exact I.
@@ -953,7 +955,8 @@ Proof.
         | apply upd_exec_strlen | apply upd_exec_incr | apply upd_exec_decr | apply upd_exec_incrby
         | apply upd_exec_decrby | apply upd_exec_append | apply upd_exec_del | apply upd_exec_exists
         | apply upd_exec_keys | apply upd_exec_expire | apply upd_exec_persist | apply upd_exec_ttl
-        | apply upd_exec_type | apply upd_exec_rename | apply upd_exec_ping ].
+        | apply upd_exec_type | apply upd_exec_rename | apply upd_exec_ping
+        | match goal with |- upd _ _ _ (snd ?x) => unfold_exec x end; upd_auto ].
 Qed.
 
 Lemma upd_lists : family_upd lists_dispatch.
@@ -1320,7 +1323,8 @@ Proof.
   first [ apply keep_get | apply keep_getrange | apply keep_setrange | apply keep_mget
         | apply keep_setnx | apply keep_strlen | apply keep_incr | apply keep_decr | apply keep_incrby
         | apply keep_decrby | apply keep_append | apply keep_exec_del | apply keep_exists
-        | apply keep_keys | apply keep_ttl | apply keep_type | apply keep_ping ].
+        | apply keep_keys | apply keep_ttl | apply keep_type | apply keep_ping
+        | match goal with |- ttl_keep _ (snd ?x) => unfold_exec x end; keep_auto ].
 Qed.
 
 Lemma keep_lists : family_keep lists_dispatch.
@@ -1483,7 +1487,7 @@ Definition set_writes (o : setopts) (cur : option (value * option Z)) : Prop :=
   match cur with
   | None => o_xx o = false
   | Some (VStr _, _) => o_nx o = false
-  | Some _ => False
+  | Some _ => o_get o = false /\ o_nx o = false    (* a value of another type is overwritten; GET needs a string *)
   end.
 Definition set_reply (o : setopts) (cur : option (value * option Z)) : reply :=
   if o_get o then match cur with Some (VStr old, _) => RBulk old | _ => RNil end else rOK.
@@ -1512,14 +1516,16 @@ Proof.
   assert (RV : raw_view p k = match db_get p k with None => None | Some v => Some (v, db_ttl p k) end)
     by reflexivity.
   rewrite RV in *. clear RV. unfold deadline_of.
-  destruct (db_get p k) as [[old| | | | |]|] eqn:G; try contradiction.
+  destruct (db_get p k) as [[old| | | | |]|] eqn:G;
+    try (destruct S as [S1 S2]; rewrite S1, S2; cbn [fst snd];
+         split; [reflexivity|]; split; [apply V; reflexivity|exact F]).
   - rewrite S. cbn [fst snd]. split; [destruct (o_get o); reflexivity|]. split; [apply V; reflexivity|exact F].
   - rewrite S. cbn [fst snd]. split; [destruct (o_get o); reflexivity|]. split; [|exact F].
     apply V. apply wf_ttl_none; [apply db_wf_purge; exact W|exact G].
 Qed.
 
-(* condition not met (NX on a visible key, XX on an invisible one), wrong type, or an argument
-   error: nothing is written and no deadline changes *)
+(* condition not met (NX on a visible key, XX on an invisible one; GET on a key of another type),
+   or an argument error: nothing is written and no deadline changes *)
 Theorem exec_set_skips d now nowms c k v opts hint : db_wf d -> lower c = B "set" ->
   (forall o, set_parse opts setopts0 = Some o ->
              set_conflict o || ex_overflow now (o_ex o) = false -> ~ set_writes o (view d now k)) ->
@@ -1530,7 +1536,9 @@ Proof.
   destruct (set_conflict o || ex_overflow now (o_ex o)) eqn:C; [reflexivity|].
   specialize (H o eq_refl C). unfold set_writes in H.
   rewrite <- (raw_view_purge d now k W) in H. unfold raw_view in H.
-  destruct (db_get (purge d now) k) as [[old| | | | |]|]; try reflexivity.
+  destruct (db_get (purge d now) k) as [[old| | | | |]|];
+    try (destruct (o_get o); [reflexivity|]; destruct (o_nx o); [reflexivity|];
+         exfalso; apply H; split; reflexivity).
   - destruct (o_nx o); [reflexivity|]. exfalso; apply H; reflexivity.
   - destruct (o_xx o); [reflexivity|]. exfalso; apply H; reflexivity.
 Qed.
